@@ -41,6 +41,8 @@ enum Op {
 	Compact,
 	Validate,
 	Segmenter,
+	/// one call of every other public read API of Chain (index into `api_sweep`)
+	Api(usize),
 }
 
 struct Harness {
@@ -57,6 +59,9 @@ fn harnesses(tier: Tier) -> Vec<Harness> {
 		Harness { name: "b:header-first+block+reader", universe: "forks", prelude: base5.clone(), threads: vec![("hdr", vec![Op::H("m5")]), ("blk", vec![Op::B("m5")]), ("reader", vec![Op::Read])] },
 		Harness { name: "c:block+validate_tx+get_unspent", universe: "forks", prelude: base5.clone(), threads: vec![("peer", vec![Op::B("m5")]), ("pool", vec![Op::ValidateTx]), ("api", vec![Op::Unspent])] },
 		Harness { name: "d:miner-template+block", universe: "forks", prelude: base5.clone(), threads: vec![("miner", vec![Op::SetRoots]), ("peer", vec![Op::B("m5")])] },
+		// every remaining public read path against a block writer and against a header writer
+		Harness { name: "r1:api-sweep+block", universe: "forks", prelude: base5.clone(), threads: vec![("api", (0..API_N / 2).map(Op::Api).collect()), ("peer", vec![Op::B("m5")])] },
+		Harness { name: "r2:api-sweep+header+fork", universe: "forks", prelude: base5.clone(), threads: vec![("api", (API_N / 2..API_N).map(Op::Api).collect()), ("peer", vec![Op::H("m5"), Op::B("f5")])] },
 	];
 	if tier == Tier::Thorough {
 		v.push(Harness { name: "a2:reorg+reader", universe: "forks", prelude: vec!["B(m1)", "B(m2)", "B(m3)", "B(m4)", "B(m5)", "B(m6)", "B(f5)", "B(f6)"], threads: vec![("peer1", vec![Op::B("f7")]), ("reader", vec![Op::Read, Op::Unspent, Op::Read])] });
@@ -65,6 +70,89 @@ fn harnesses(tier: Tier) -> Vec<Harness> {
 		v.push(Harness { name: "f:segmenter+block", universe: "long", prelude: vec!["*main"], threads: vec![("server", vec![Op::Segmenter]), ("peer", vec![Op::B("x91")])] });
 	}
 	v
+}
+
+const API_N: usize = 14;
+
+/// One read API per index; returns (description, ok). `ok` only demands what must hold under
+/// any interleaving with the writers of these harnesses (the probed output / kernel / headers
+/// exist below the fork point and are touched by no block the writers deliver).
+fn api_sweep(chain: &Chain, cx: &Ctx, i: usize) -> (String, bool) {
+	let kc_commit = cx.probe_commit;
+	let b3 = cx.tree.blocks.iter().find(|b| b.name == "m3").map(|b| b.block.clone());
+	match i {
+		0 => {
+			let r = chain.get_header_for_output(kc_commit);
+			(format!("get_header_for_output -> {:?}", r.as_ref().map(|h| h.height).map_err(|e| format!("{:?}", e))), r.map(|h| h.height == 3).unwrap_or(false))
+		}
+		1 => {
+			let r = chain.get_merkle_proof_for_pos(kc_commit);
+			(format!("get_merkle_proof_for_pos -> {}", r.is_ok()), r.is_ok())
+		}
+		2 => {
+			let k = b3.as_ref().map(|b| b.kernels()[0].excess).unwrap();
+			let r = chain.get_kernel_height(&k, None, None);
+			(format!("get_kernel_height -> {:?}", r.as_ref().map(|o| o.as_ref().map(|x| x.1)).map_err(|e| format!("{:?}", e))), matches!(r, Ok(Some((_, 3, _)))))
+		}
+		3 => {
+			let r = chain.get_output_pos(&kc_commit);
+			(format!("get_output_pos -> {:?}", r.as_ref().map_err(|e| format!("{:?}", e))), r.is_ok())
+		}
+		4 => {
+			let r = chain.unspent_outputs_by_pmmr_index(1, 100, None);
+			(format!("unspent_outputs_by_pmmr_index -> {:?}", r.as_ref().map(|x| x.2.len()).map_err(|e| format!("{:?}", e))), r.is_ok())
+		}
+		5 => {
+			let a = chain.get_last_n_output(3).len();
+			let b = chain.get_last_n_rangeproof(3).len();
+			let c = chain.get_last_n_kernel(3).len();
+			(format!("get_last_n_* -> {} {} {}", a, b, c), a == 3 && b == 3 && c == 3)
+		}
+		6 => {
+			let hh = chain.header_head();
+			let hd = chain.head_header();
+			let t = chain.tail();
+			(format!("header_head/head_header/tail -> {} {} {}", hh.is_ok(), hd.is_ok(), t.is_ok()), hh.is_ok() && hd.is_ok() && t.is_ok())
+		}
+		7 => {
+			let h = b3.as_ref().unwrap().header.clone();
+			let a = chain.get_previous_header(&h);
+			let s = chain.get_block_sums(&h.hash());
+			let k = chain.is_known(&h);
+			(format!("get_previous_header/get_block_sums/is_known -> {} {} {}", a.is_ok(), s.is_ok(), k.is_err()), a.is_ok() && s.is_ok() && k.is_err())
+		}
+		8 => {
+			let inputs = grin_core::core::Inputs::CommitOnly(vec![kc_commit.into()]);
+			let a = chain.validate_inputs(&inputs);
+			let b = chain.verify_coinbase_maturity(&inputs);
+			// maturity of coinbase 3 depends on where the head is (next height >= 6): either answer is right
+			(format!("validate_inputs/verify_coinbase_maturity -> {} {}", a.is_ok(), b.is_ok()), a.is_ok())
+		}
+		9 => {
+			let r = chain.verify_tx_lock_height(&cx.tx);
+			(format!("verify_tx_lock_height -> {}", r.is_ok()), r.is_ok())
+		}
+		10 => {
+			let head = chain.header_head().unwrap();
+			let r = chain.get_locator_hashes(head, &[0, 1, 2, 3]);
+			(format!("get_locator_hashes -> {:?}", r.as_ref().map(|v| v.len()).map_err(|e| format!("{:?}", e))), r.map(|v| v.len() == 4).unwrap_or(false))
+		}
+		11 => {
+			let n = chain.difficulty_iter().map(|it| it.take(5).count());
+			(format!("difficulty_iter -> {:?}", n.as_ref().map_err(|e| format!("{:?}", e))), n.map(|n| n == 5).unwrap_or(false))
+		}
+		12 => {
+			let h = b3.as_ref().unwrap().header.clone();
+			let r = chain.get_merkle_proof(grin_core::core::OutputIdentifier::new(grin_core::core::OutputFeatures::Coinbase, &kc_commit), &h);
+			(format!("get_merkle_proof -> {}", r.is_ok()), r.is_ok())
+		}
+		_ => {
+			let a = chain.block_exists(b3.as_ref().unwrap().hash());
+			let f = chain.fork_point();
+			let o = chain.orphans_len();
+			(format!("block_exists/fork_point/orphans_len -> {:?} {} {}", a.as_ref().ok(), f.is_ok(), o), matches!(a, Ok(true)) && f.is_ok())
+		}
+	}
 }
 
 #[derive(Debug, Clone)]
@@ -78,6 +166,8 @@ struct Obs {
 struct Ctx {
 	tree: Arc<Tree>,
 	tx: grin_core::core::Transaction,
+	/// coinbase of m3 / x3: below every fork point, spent by no block
+	probe_commit: grin_util::secp::pedersen::Commitment,
 }
 
 fn run_op(chain: &Chain, cx: &Ctx, op: &Op, tname: &str, log: &Mutex<Vec<Obs>>) {
@@ -145,6 +235,11 @@ fn run_op(chain: &Chain, cx: &Ctx, op: &Op, tname: &str, log: &Mutex<Vec<Obs>>) 
 			let r = chain.validate(true);
 			obs.what = format!("validate(fast) -> {:?}", r.as_ref().map_err(|e| format!("{:?}", e)));
 			obs.ok = r.is_ok();
+		}
+		Op::Api(i) => {
+			let (w, ok) = api_sweep(chain, cx, *i);
+			obs.what = w;
+			obs.ok = ok;
 		}
 		Op::Segmenter => {
 			let r = chain.segmenter();
@@ -233,7 +328,7 @@ fn sequential_fps(h: &Harness, base: &Path, sc: &uni::Scratch, cx: &Arc<Ctx>) ->
 		}
 		out
 	}
-	let lists: Vec<Vec<(usize, Op)>> = h.threads.iter().enumerate().map(|(t, (_, ops))| ops.iter().filter(|o| !matches!(o, Op::Read | Op::Unspent | Op::ValidateTx | Op::SetRoots | Op::Validate | Op::Segmenter)).map(|o| (t, o.clone())).collect()).collect();
+	let lists: Vec<Vec<(usize, Op)>> = h.threads.iter().enumerate().map(|(t, (_, ops))| ops.iter().filter(|o| !matches!(o, Op::Read | Op::Unspent | Op::ValidateTx | Op::SetRoots | Op::Validate | Op::Segmenter | Op::Api(_))).map(|o| (t, o.clone())).collect()).collect();
 	let mut set = BTreeSet::new();
 	for order in interleavings(&lists) {
 		let dir = sc.fresh("seq");
@@ -403,7 +498,7 @@ fn run(tier: Tier, shard: usize, n: usize) -> Report {
 		let tree = trees.get(h.universe).unwrap().clone();
 		let kc = uni::keychain(if h.universe == "forks" { 21 } else { 22 });
 		let tx = uni::spend_coinbase(&kc, 3, uni::REWARD, &[(7777, uni::REWARD - 2_000_000)], 4243);
-		let cx = Arc::new(Ctx { tree: tree.clone(), tx });
+		let cx = Arc::new(Ctx { tree: tree.clone(), tx, probe_commit: uni::commit_of(&kc, 3, uni::REWARD) });
 		let base = sc.fresh("base");
 		{
 			let mut live = Live::open(&tree, &base, Options::NONE);
@@ -439,7 +534,7 @@ impl Engine for C17 {
 		Meta {
 			level: "model_checking",
 			rule: if tier == Tier::Quick {
-				"controlled-scheduler exploration of the real Chain with real OS threads (exactly one runs at a time; scheduling points = every util::RwLock acquisition, the LMDB writer lock, polling loops, thread start/exit; lock state mirrored incl. 'a parked writer blocks new readers'): EVERY schedule with at most 1 preemption of four harnesses (competing fork blocks + reader; header-first + block + reader; block + validate_tx + get_unspent; miner template + block). Oracles per schedule: no deadlock/livelock/panic, every operation returns what a correct node may return, a reported head names a stored block, observed total difficulty never decreases, final state in the set of final states of all sequential orders of the operations, validate(false) passes. A state = one complete schedule; transitions = scheduling decisions."
+				"controlled-scheduler exploration of the real Chain with real OS threads (exactly one runs at a time; scheduling points = every util::RwLock acquisition, the LMDB writer lock, polling loops, thread start/exit; lock state mirrored incl. 'a parked writer blocks new readers'): EVERY schedule with at most 1 preemption of six harnesses (competing fork blocks + reader; header-first + block + reader; block + validate_tx + get_unspent; miner template + block; two sweeps calling every other public read API of Chain against a block writer and against a header writer + fork block). Oracles per schedule: no deadlock/livelock/panic, every operation returns what a correct node may return, a reported head names a stored block, observed total difficulty never decreases, final state in the set of final states of all sequential orders of the operations, validate(false) passes. A state = one complete schedule; transitions = scheduling decisions."
 			} else {
 				"as quick, with EVERY schedule with at most 2 preemptions and four more harnesses (reorg + readers; validate + header + fork block; compact + block + reader; segmenter + block)"
 			},
@@ -466,7 +561,7 @@ impl Engine for C17 {
 		let tree = Arc::new(universe(&sc, h.universe));
 		let kc = uni::keychain(if h.universe == "forks" { 21 } else { 22 });
 		let tx = uni::spend_coinbase(&kc, 3, uni::REWARD, &[(7777, uni::REWARD - 2_000_000)], 4243);
-		let cx = Arc::new(Ctx { tree: tree.clone(), tx });
+		let cx = Arc::new(Ctx { tree: tree.clone(), tx, probe_commit: uni::commit_of(&kc, 3, uni::REWARD) });
 		let base = sc.fresh("base");
 		{
 			let mut live = Live::open(&tree, &base, Options::NONE);
